@@ -15,6 +15,9 @@
 (*   [h |-> "oneof", cands |-> Seq(template)]                              *)
 (*   [h |-> "manyof", k, cands, distinct, sorted]                          *)
 (*   [h |-> "float", lo, hi]     [h |-> "custom"]                          *)
+(*   [h |-> "tobj", fs |-> Seq(field spec), items]  an object of a class   *)
+(*        with TYPED fields; field spec [k |-> "float" | "int" | "enum" |  *)
+(*        "intlist", lo, hi]  (NONE = no bound; enum: the values {lo, hi}) *)
 (* where-filters: "all", "oneof" (only OneOf placeholders), "choices"      *)
 (* (OneOf and ManyOf, not Float / custom), "many3" (placeholders with      *)
 (* exactly 3 candidates)                                                   *)
@@ -31,9 +34,13 @@ ManyOf(k, cands, d, s) == [h |-> "manyof", k |-> k, cands |-> cands, distinct |-
 FloatT(lo, hi) == [h |-> "float", lo |-> lo, hi |-> hi]
 CustomT == [h |-> "custom"]
 
+NONE == 9999
+FS(k, lo, hi) == [k |-> k, lo |-> lo, hi |-> hi]
+TObj(fs, items) == [h |-> "tobj", fs |-> fs, items |-> items]
+
 IsH(t) == t.h \in {"oneof", "manyof", "float", "custom"}
 IsChoice(t) == t.h \in {"oneof", "manyof"}
-IsBox(t) == t.h \in {"dict", "list", "obj"}
+IsBox(t) == t.h \in {"dict", "list", "obj", "tobj"}
 
 \* does the where-filter select this placeholder?
 W(w, t) == \/ w = "all"
@@ -127,6 +134,41 @@ Placeholders(v) ==
 OnlyFilteredLeft(w, v) == \A p \in Placeholders(v) : ~W(w, p)
 Deterministic(v) == Placeholders(v) = {}
 
+\* ---------------------------------------------------------------- placeholders bound to value specs
+InBounds(fs, x) == (fs.lo = NONE \/ x >= fs.lo) /\ (fs.hi = NONE \/ x <= fs.hi)
+\* does the field's value spec accept this (placeholder free) value?
+AcceptsV(fs, v) ==
+  IF fs.k = "float" THEN v.h = "fleaf" /\ InBounds(fs, v.v)
+  ELSE IF fs.k = "int" THEN v.h = "leaf" /\ InBounds(fs, v.v)
+  ELSE IF fs.k = "enum" THEN v.h = "leaf" /\ v.v \in {fs.lo, fs.hi}
+  ELSE IF fs.k = "intlist" THEN v.h = "list" /\ \A i \in 1..Len(v.items) : v.items[i].h = "leaf" /\ InBounds(fs, v.items[i].v)
+  ELSE TRUE
+\* may this template be bound to the field?  (what binding must check: every value the placeholder can
+\* produce is acceptable -- the range of a Float lies inside the spec's range, INCLUDING a bound of exactly 0,
+\* every candidate of a choice is acceptable)
+RECURSIVE BindOK(_,_)
+BindOK(fs, t) ==
+  IF t.h = "float" THEN fs.k = "float" /\ (fs.lo = NONE \/ t.lo >= fs.lo) /\ (fs.hi = NONE \/ t.hi <= fs.hi)
+  ELSE IF t.h = "oneof" THEN fs.k # "intlist" /\ \A i \in 1..Len(t.cands) : BindOK(fs, t.cands[i])
+  ELSE IF t.h = "manyof" THEN fs.k = "intlist" /\ \A i \in 1..Len(t.cands) : BindOK(FS("int", fs.lo, fs.hi), t.cands[i])
+  ELSE IF t.h = "custom" THEN TRUE
+  ELSE AcceptsV(fs, t)
+RECURSIVE WellTyped(_)
+WellTyped(t) ==
+  IF t.h = "tobj" THEN \A i \in 1..Len(t.items) : BindOK(t.fs[i], t.items[i]) /\ WellTyped(t.items[i])
+  ELSE IF IsBox(t) THEN \A i \in 1..Len(t.items) : WellTyped(t.items[i])
+  ELSE IF IsChoice(t) THEN \A i \in 1..Len(t.cands) : WellTyped(t.cands[i])
+  ELSE TRUE
+\* every typed field of a value holds something its spec accepts (a placeholder the filter left is still bound)
+RECURSIVE TypedFieldsOK(_)
+TypedFieldsOK(v) ==
+  IF v.h = "tobj" THEN \A i \in 1..Len(v.items) :
+                         /\ TypedFieldsOK(v.items[i])
+                         /\ (IF Placeholders(v.items[i]) = {} THEN AcceptsV(v.fs[i], v.items[i]) ELSE BindOK(v.fs[i], v.items[i]))
+  ELSE IF IsBox(v) THEN \A i \in 1..Len(v.items) : TypedFieldsOK(v.items[i])
+  ELSE IF IsChoice(v) THEN \A i \in 1..Len(v.cands) : TypedFieldsOK(v.cands[i])
+  ELSE TRUE
+
 \* "candidates are distinguishable": wherever a choice is made, a value produced by a later candidate is never
 \* claimed by an earlier one (encode takes the first candidate that matches)
 DecodedSet(t, w) == { Decode(t, w, d) : d \in Valid(TemplateSpec(t, w)) }
@@ -167,6 +209,30 @@ Boxes2(P, Q) == { DictT(<<p, q>>) : p \in P, q \in Q } \cup { ObjT(<<p, q>>) : p
                 \cup { ListT(<<DictT(<<p>>), q>>) : p \in P, q \in Q }
 Boxes3(P) == { DictT(<<p, ListT(<<q, L1>>), ObjT(<<r>>)>>) : p \in P, q \in P, r \in P }
 
+\* typed objects: fields Float[0, 1], Float[0.5, ...), Float(..., 0], Int[1, 2], Int[0, ...), Enum{1, 3}, List(Int >= 1)
+F_01 == FS("float", 0, 10)
+F_min5 == FS("float", 5, NONE)
+F_max0 == FS("float", NONE, 0)
+F_any == FS("float", NONE, NONE)
+I_12 == FS("int", 1, 2)
+I_min0 == FS("int", 0, NONE)
+E_13 == FS("enum", 1, 3)
+IL_1 == FS("intlist", 1, NONE)
+FloatSpecs == {F_01, F_min5, F_max0, F_any}
+FloatFills == { FloatT(0, 10), FloatT(-5, 5), FloatT(5, 10), FloatT(-10, 0), FloatT(3, 7), FloatT(0, 15), FloatT(-1, 0),
+                OneOf(<<FLeaf(5), FloatT(0, 10)>>), OneOf(<<FLeaf(-5), FLeaf(10)>>), OneOf(<<FloatT(-5, 0), FLeaf(0)>>),
+                FLeaf(0), FLeaf(-1) }
+IntFills == { O12, O123, OneOf(<<Leaf(0), O12>>), OneOf(<<L1, OneOf(<<L2, Leaf(-1)>>)>>), L1, Leaf(0), OneOf(<<L1, L3>>),
+              FloatT(0, 10) }
+ListFills == { ManyOf(2, <<L1, L2, L3>>, TRUE, FALSE), ManyOf(2, <<Leaf(0), L1>>, FALSE, TRUE), ManyOf(2, <<L1, O12>>, FALSE, FALSE), O12 }
+TypedAll == { TObj(<<f>>, <<p>>) : f \in FloatSpecs, p \in FloatFills }
+            \cup { TObj(<<f>>, <<p>>) : f \in {I_12, I_min0, E_13}, p \in IntFills }
+            \cup { TObj(<<IL_1>>, <<p>>) : p \in ListFills }
+            \cup { TObj(<<F_01, I_12>>, <<p, q>>) : p \in {FloatT(0, 10), FloatT(-5, 5), FLeaf(5)}, q \in {O12, O123} }
+            \cup { DictT(<<TObj(<<F_01>>, <<p>>), O12>>) : p \in {FloatT(0, 10), FloatT(-1, 10)} }
+TypedGood == { t \in TypedAll : WellTyped(t) }
+TypedBad == { t \in TypedAll : ~WellTyped(t) }          \* binding must refuse these
+
 WheresFor(t) == {"all"} \cup (IF \E p \in Placeholders(t) : p.h # "oneof" THEN {"oneof"} ELSE {})
                         \cup (IF \E p \in Placeholders(t) : ~IsChoice(p) THEN {"choices"} ELSE {})
                         \cup (IF \E p \in Placeholders(t) : IsChoice(p) /\ Len(p.cands) = 3 THEN {"many3"} ELSE {})
@@ -178,11 +244,12 @@ OkPair(p) == /\ p[2] \in WheresFor(p[1])
              /\ LET z == Size(TemplateSpec(p[1], p[2])) IN
                 IF z = INF THEN Cardinality(Valid(TemplateSpec(p[1], p[2]))) <= 4 * MaxSize ELSE z <= MaxSize
 H_one == { <<O12, "all">> }
-H_tiny == { p \in WithWheres(Prim1 \cup Boxes1({O12, FloatT(0, 10)})) : OkPair(p) }
-H_quick == { p \in WithWheres(Prim1 \cup Prim2 \cup {O11} \cup Boxes1(Prim1 \cup Prim2 \cup {O11}) \cup Boxes2(PrimSmall, PrimSmall))
+H_tiny == { p \in WithWheres(Prim1 \cup Boxes1({O12, FloatT(0, 10)}) \cup TypedGood) : OkPair(p) }
+H_quick == { p \in WithWheres(Prim1 \cup Prim2 \cup {O11} \cup Boxes1(Prim1 \cup Prim2 \cup {O11}) \cup Boxes2(PrimSmall, PrimSmall)
+                            \cup TypedGood)
              : OkPair(p) }
 H_thorough == { p \in WithWheres(Prim1 \cup Prim2 \cup {O11} \cup Boxes1(Prim1 \cup Prim2 \cup {O11})
-                                 \cup Boxes2(Prim1 \cup Prim2, PrimSmall) \cup Boxes3(PrimSmall \ {O11}))
+                                 \cup Boxes2(Prim1 \cup Prim2, PrimSmall) \cup Boxes3(PrimSmall \ {O11}) \cup TypedGood)
                 : OkPair(p) }
 
 \* ---------------------------------------------------------------- behaviours: the odometer over the template's space
@@ -202,6 +269,8 @@ Val == Decode(tmpl, wh, cur)
 Re == Encode(tmpl, wh, Val)
 
 NoPlaceholderLeft == OnlyFilteredLeft(wh, Val) /\ (wh = "all" => Deterministic(Val))
+\* every decoded value is accepted by the value specs its placeholders were bound to
+TypedOK == TypedFieldsOK(Val)
 ShapeOK == Re.ok                                         \* the decoded value merges structurally with the template
 InverseLaw == Distinguishable(tmpl, wh) => Re.ok /\ Re.ds = cur
 \* values of a whole iteration are pairwise different, and as many as the space is large
